@@ -291,7 +291,7 @@ pub fn write_fuzz_seeds(dir: &PathBuf) {
 pub fn write_c08t_inputs(seed: u64, count: u64, file: &PathBuf) {
     use crate::gen::{mix, Limits};
     use crate::oracle::Fmt;
-    let fams: [&str; 8] = ["G-N", "G-N", "G-N", "G-P", "G-M", "G-G-f32", "G-G-f64", "big-bigint"];
+    let fams: [&str; 12] = ["G-N", "G-N", "G-N", "G-P", "G-M", "G-G-f32", "G-G-f64", "big-bigint", "hostile-wrap32", "hostile-wrap64", "hostile-bytes", "G-T"];
     let lim = Limits { long: 800, huge: 800 };
     let mut out = String::new();
     for i in 0..count {
@@ -302,7 +302,7 @@ pub fn write_c08t_inputs(seed: u64, count: u64, file: &PathBuf) {
             bytes.extend(s.to_le_bytes());
         }
         let mut r = crate::fuzzglue::recipe_from_bytes(&bytes);
-        let fam = fams[(i % 8) as usize];
+        let fam = fams[(i % 12) as usize];
         let (fmt, c) = match fam {
             "G-N" => {
                 r.k[1] = 5 + (r.k[1] % 3); // 6..8 zero limbs
@@ -317,6 +317,49 @@ pub fn write_c08t_inputs(seed: u64, count: u64, file: &PathBuf) {
             "G-G-f64" => {
                 r.sel[3] = 0x4000;
                 (Fmt::F64, crate::gen::g_g(Fmt::F64, &r, lim))
+            }
+            "G-T" => (Fmt::F64, crate::gen::g_t(Fmt::F64, &r)),
+            "hostile-wrap32" | "hostile-wrap64" | "hostile-bytes" => {
+                // invalid bytes.  wrapNN: every chunk the slow path accumulates (9 bytes on 32-bit limbs, 19 on
+                // 64-bit limbs) has "digit" values c - b'0' in 0..=255 that sum, with their powers of ten, to a
+                // multiple of 2^NN - so with overflow checks off the big integer's chunks wrap to zero while the
+                // 19-byte u64 significand does not
+                let fmt = if r.sel[7] & 1 == 0 { Fmt::F64 } else { Fmt::F32 };
+                let bytes: Vec<u8> = if fam == "hostile-bytes" {
+                    (0..(20 + r.k[0] % 200)).map(|j| (mix(r.a ^ j as u64) >> 13) as u8).collect()
+                } else {
+                    let (chunk, modulus): (usize, u128) = if fam == "hostile-wrap32" { (9, 1u128 << 32) } else { (19, 1u128 << 64) };
+                    let mut v = Vec::new();
+                    let chunks = 3 + (r.k[0] % 4) as usize;
+                    for c in 0..chunks {
+                        let k = 1 + (mix(r.b ^ c as u64) % 5) as u128;
+                        let mut t = k * modulus; // written with `chunk` oversized digits
+                        let mut ds = vec![0u32; chunk];
+                        for pos in (0..chunk).rev() {
+                            ds[pos] = (t % 10) as u32;
+                            t /= 10;
+                        }
+                        // fold what is left above the top position into the leading "digit"
+                        ds[0] += (t * 10) as u32;
+                        // an all-'0' chunk also wraps to zero: after the first chunk, or (so that the 19-byte
+                        // significand stays tiny and the moderate path declines) everywhere before the last one
+                        let zero_chunk = match r.k[1] % 3 {
+                            0 => c > 0,
+                            1 => c + 1 < chunks,
+                            _ => false,
+                        };
+                        if ds[0] > 255 || zero_chunk {
+                            ds = vec![0; chunk];
+                        }
+                        v.extend(ds.iter().map(|d| b'0'.wrapping_add(*d as u8)));
+                    }
+                    v
+                };
+                let cut = (r.k[2] as usize) % (bytes.len() + 1);
+                let hex = |d: &[u8]| if d.is_empty() { "-".to_string() } else { format!("x{}", d.iter().map(|b| format!("{:02x}", b)).collect::<String>()) };
+                let exp = (r.k[3] % 700) as i32 - 350;
+                out.push_str(&format!("{} {} {} {} {}\n", fmt.name(), hex(&bytes[..cut]), hex(&bytes[cut..]), exp, fam));
+                continue;
             }
             _ => {
                 r.sel[0] = 0xE800;
